@@ -56,7 +56,14 @@ def _kernels(env):
         seg = stubs[E._compute_finite_vortex]
         semi = stubs[E._compute_semi_infinite_vortex]
         return (lambda a, b: seg(a, b)), (lambda u, r: semi(u, r))
-    return (lambda a, b: vlm.seg_textbook(xp, a, b)), (lambda u, r: vlm.semi_textbook(xp, u, r))
+    def seg_native(a, b):
+        # a control point on the axis of the segment (the force point of a panel on its own bound vortex) induces nothing:
+        # the usual convention of the textbook formula (Katz & Plotkin, 10.4.5: "if |r1 x r2| < eps the velocity is zero")
+        c = np.cross(a, b)
+        if (c * c).sum() <= 1e-24 * (a * a).sum() * (b * b).sum():
+            return np.zeros(3)
+        return vlm.seg_textbook(xp, a, b)
+    return seg_native, (lambda u, r: vlm.semi_textbook(xp, u, r))
 
 
 @job("c05.reference", ("C05", "C04", "C07", "C19"), cfgs=[dict(c, rotational=r) for c in CF for r in (False, True) if not (r and c.get("nsurf", 1) == 3)],
@@ -133,3 +140,76 @@ def rotational_velocity(env, **cfg):
     want = xp.cross(om_ + 0 * pts, pts - cg)                  # rigid-body velocity field omega x (r - cg)
     for lab, o in runs(env, "rv", fac, ins):
         env.eq("C05", "rotational velocity == omega x (r - cg) at the collocation points" + lab, o["rotational_velocities"], want)
+
+
+@job("c05.revisit", ("C05", "C03"), cfgs=[dict(nx=2, ny=2, symmetry=True, side="left", nsurf=1, rotational=False),
+                                           dict(nx=2, ny=2, symmetry=True, side="right", nsurf=2, tail_sym=False, rotational=True, _tier=T)],
+     ranges=RG, cost=80)
+def revisit(env, rotational, **cfg):
+    """the third analysis on one live model - after two earlier analyses that differ from it, and from each other, in a single
+    input (each flight condition and each mesh in turn: a polar, a sideslip sweep, a shape change) - solves the tangency system
+    of a fresh model and reports its forces (anything accumulated or remembered across analyses shows at the third one)"""
+    from .c06 import solve_hint, check_solve_relation
+    surfs = surfaces_for(cfg)
+    build = lambda: gsx.aero_model(surfs, rotational=rotational)
+    g0 = gsx.GroupSX(env, build(), key="fresh")
+    if env.sym:
+        env.use_helpers("eval_mtx")
+    given = base_inputs(env, g0, surfs)
+    v0 = g0.run(given)
+    solves0 = list(g0.solves)
+    prev1 = base_inputs(env, g0, surfs, tag="P.")
+    prev2 = base_inputs(env, g0, surfs, tag="P2.")
+    for k in sorted(given):
+        g = gsx.GroupSX(env, build(), key="live." + k)
+        S.PATH.mute = True                     # which branches the earlier analyses take is immaterial
+        try:
+            g.run(dict(given, **{k: prev1[k]}))
+            g.run(dict(given, **{k: prev2[k]}))
+        finally:
+            S.PATH.mute = False
+        if env.sym:
+            v = g.run(given, hints={"solve_matrix": solve_hint(solves0, 1)})
+            check_solve_relation(env, "C05,C03", "third analysis of a live model; %s changed in the first two" % k, g, solves0, 1)
+        else:
+            v = g.run(given)
+        for s in surfs:
+            n = s["name"]
+            env.eq("C05,C03", "panel forces at the third analysis of a live model equal those of a fresh model; %s changed in the first two [%s]" % (k, n),
+                   g.get(v, "ap.aero_states.%s_sec_forces" % n), g0.get(v0, "ap.aero_states.%s_sec_forces" % n))
+        for q in ("CL", "CD"):
+            env.eq("C05,C03", "aircraft %s at the third analysis of a live model equals that of a fresh model; %s changed in the first two" % (q, k),
+                   g.get(v, "ap." + q), g0.get(v0, "ap." + q))
+
+
+@job("c05.large_lattice", ("C05",), cfgs=[dict(nx=4, ny=60, symmetry=True, side="left", nsurf=1, rotational=False),
+                                                 dict(nx=2, ny=130, symmetry=False, nsurf=1, rotational=True, _tier=T)], cost=30)
+def large_lattice(env, rotational, **cfg):
+    """BOUNDED stand-in, not a proof: the reference clauses of c05.reference evaluated in floating point at one sampled input on a
+    lattice of 177 (129) panels - sizes beyond any block size or threshold the array code may use, which the symbolic
+    configurations (at most 27 panels) cannot reach.  Tolerance 1e-8 relative to the largest entry of each array."""
+    if not env.sym:
+        return
+    nenv = core.Env("native", seed=env.seed, ranges=RG)
+    # a regular wing (the surface's own mesh, every node moved by up to a quarter of a panel, so that no control point lies on the extension of a vortex segment, where the textbook kernel of the reference is singular) instead of a cloud of sampled nodes
+    import random as _random
+    rnd = _random.Random(env.seed + 17)
+    nenv.witness = dict(getattr(nenv, "witness", None) or {})
+    for s_ in surfaces_for(cfg):
+        m = np.asarray(s_["mesh"], dtype=float)
+        h = 0.25 * min(abs(m[1, 0, 0] - m[0, 0, 0]), abs(m[0, 1, 1] - m[0, 0, 1]))
+        for idx in np.ndindex(*m.shape):
+            nenv.witness["%s_def_mesh[%d][%d][%d]" % ((s_["name"],) + idx)] = float(m[idx]) + h * rnd.uniform(-1, 1)
+    reference(nenv, rotational=rotational, **cfg)
+    env.functions.update(nenv.functions)
+    n = 0
+    for name, (dabs, sc, L, R) in nenv.numeric.items():
+        n += 1
+        worst = float(np.max(dabs)) if np.size(dabs) else 0.0
+        scale = max(float(np.max(sc)) if np.size(sc) else 0.0, 1.0)          # inputs are of order one
+        ok = np.all(np.isfinite(L)) and np.all(np.isfinite(R)) and worst <= 1e-8 * scale
+        if not ok or n <= 3 or "tangency" in name:
+            env.holds("C05", "[bounded: one sampled input, %d x %d mesh] %s" % (cfg["nx"], cfg["ny"], name), bool(ok),
+                      "largest deviation %.3g on a scale of %.3g" % (worst, scale))
+    env.holds("C05", "[bounded] the large-lattice evaluation produced the reference clauses", n > 50, "%d clauses" % n)
+    env.assumptions.add("c05.large_lattice is a bounded numerical check at one sampled input (labelled bounded; not counted as proved)")
